@@ -1,8 +1,10 @@
 #!/bin/sh
 # Runs the checks named in each /verif/seeded/<id>/meta.json ("checks") against the seeded change
 # in the scratch harness (tools/mutharness.sh) and reports caught / missed. Usage:
-#   tools/run_seeded.sh [seeded-id ...]     (default: all)
+#   tools/run_seeded.sh [--update] [seeded-id ...]     (default: all; --update rewrites caught_by / missed_by in meta.json)
 HERE="$(cd "$(dirname "$0")/.." && pwd)"
+UPDATE=0
+if [ "$1" = "--update" ]; then UPDATE=1; shift; fi
 [ -d /tmp/mh/repo ] || "$HERE/tools/mutharness.sh" init
 "$HERE/tools/mutharness.sh" sync >/dev/null 2>&1
 if [ $# -eq 0 ]; then set -- $(ls "$HERE/seeded"); fi
@@ -11,5 +13,22 @@ for id in "$@"; do
   [ -f "$d/patch.diff" ] || continue
   checks=$(python3 -c "import json;print(' '.join(json.load(open('$d/meta.json'))['checks']))")
   echo "== $id (checks: $checks)"
-  "$HERE/tools/mutharness.sh" run "$d/patch.diff" $checks | cut -c1-330
+  RES=$("$HERE/tools/mutharness.sh" run "$d/patch.diff" $checks | cut -c1-330)
+  echo "$RES"
+  if [ $UPDATE = 1 ]; then
+    python3 - "$d/meta.json" "$RES" <<'PY'
+import json,sys,re
+p,res=sys.argv[1],sys.argv[2]
+m=json.load(open(p))
+caught=re.findall(r'\[(C\d+)\] CAUGHT: VIOLATION property=\S+ replay=\S+ rule=(\S+)',res)
+missed=re.findall(r'\[(C\d+)\] missed',res)
+old=[x['check'] for x in m.get('caught_by',[])]
+m['caught_by']=[{"check":k,"rule":r} for k,r in caught]
+m['missed_by']=missed
+newly=[k for k,_ in caught if k not in old]
+if newly and 'first_run_caught_by' not in m:
+    m['first_run_caught_by']=old
+json.dump(m,open(p,'w'),indent=1)
+PY
+  fi
 done
